@@ -41,6 +41,10 @@ def sym_event(sym, rng=None, k=0):
     if sym == "G":
         return {"k": "progress", "token": "$TOK", "progress": [0.25, 1, None, 3, 0][k % 5], "total": [None, 10, 0][k % 3],
                 "message": [None, "working", ""][(k // 2) % 3]}
+    if sym == "Gp":  # progress notification without params (and one with params: null)
+        return {"k": "progress_bare"}
+    if sym == "Rx":  # response carrying extra top-level members
+        return {"k": "resp", "id": "$ID", "p": {"v": k}, "extra": {"x-extra": [1, None], "meta": "m"}}
     if sym == "F":
         return {"k": "progress", "token": [{"s": "foreign"}, {"i": 5}, None][k % 3], "progress": 0.5, "total": 2, "message": "foreign"}
     if sym == "B":
@@ -124,13 +128,13 @@ def rand_time(rng, D):
 
 
 def seeded(rng, alphabet, weights=None, max_len=12, ids=None, progress_p=0.5, cancel_p=0.0):
-    D = rng.choice([P, P + 7, 2 * P, 2 * P + 100, 3 * P, 1100, 5 * P - 1, 1, 3, P - 1])
+    D = rng.choice([P, P + 7, 2 * P, 2 * P + 100, 3 * P, 1100, 5 * P - 1, 1, 3, P - 1, 0])
     n = rng.randint(0, max_len)
     times = sorted(rand_time(rng, D) for _ in range(n))
     word = rng.choices(alphabet, weights=weights, k=n)
     case = {
         "id": rng.choice(ids or [{"s": "abc"}, {"s": "7"}, {"s": "-12"}, None, {"s": "9c0e2b0e-1b7f-4a52-9a55-2f1f7a0e3c11"},
-                                 {"s": ""}, {"i": 0}, {"i": 7}, {"s": "0"}, {"s": " x "}]),
+                                 {"s": ""}, {"i": 0}, {"i": 7}, {"s": "0"}, {"s": " x "}, {"s": "%s %d {0} {}"}, {"s": "é\u2028😀"}]),
         "method": rng.choice(["tools/list", "resources/read", "x/y"]),
         "params": rng.choice([None, {}, {"a": {"b": None}}, {"_meta": {"k": 1}, "z": [1, None]},
                               # a params dict that already carries a progress token (a reused dict, a retry)
